@@ -1,4 +1,4 @@
-//! C13 -- pool allocator: a slot has at most one owner; exhaustion and reuse are exact (E1 part; histories are in seqx)
+//! C13 -- pool allocator: a slot has at most one owner; exhaustion and reuse are exact (E1 schedules + E2 histories)
 
 use crate::lin::{self, Hold};
 use crate::mcx::{self, Instance};
@@ -155,4 +155,20 @@ pub fn scenarios(tier: Tier) -> Vec<ScenarioDef> {
         }
     }
     defs
+}
+
+/// E2: every history of alloc_ref / alloc_with / dealloc_id / dealloc_ref on both allocators, from three sequence origins of the free
+/// list (fresh, and two next to the 32-bit wrap so that both of its counters cross the boundary), against an ownership model
+pub fn configs(tier: Tier) -> Vec<crate::seqx::Config> {
+    let mut v = Vec::new();
+    for atomic in [true, false] {
+        for pool in [2usize, 4] {
+            for (oname, origin) in [("fresh", 0u32), ("wrap", 0u32.wrapping_sub(pool as u32 + 1)), ("wrap1", u32::MAX)] {
+                let depth = match (tier, pool) { (_, 2) => 64, (Tier::Quick, _) => 9, (Tier::Thorough, _) => 64 };
+                v.push(crate::seqx::Config { name: format!("{}/P{pool}/{oname}", if atomic { "AllocatorAtomicArray" } else { "AllocatorFullSyncArray" }), max_depth: depth,
+                    build: Box::new(move || crate::chanseq::alloc_sys(atomic, pool, origin)) });
+            }
+        }
+    }
+    v
 }
